@@ -97,7 +97,7 @@ PROPS["C08"] = {
                     "sequential histories: concurrent submitters are serialised by the write semaphore (not modelled here)"],
     "trusted_extra": SEQ_TB,
     "level_text": "Coq theorems for ALL outcome scripts of the two write loops (prefix property; success only if complete; consume leaves the exact suffix) + refutation of the pinned loop (F1); the loops run inside the session model, which is compared with the real client on exhaustive split patterns and on random histories, and the executable checker c08_ok judges every connection's byte stream with the independent parser.",
-    "level_note": "Trusted: Coq kernel; models of net.Buffers/conn.Write; harness. Partial: the whole-packets invariant over all session histories and the L3 write-token exclusion are not theorems yet (see coverage.partial).",
+    "level_note": "Trusted: Coq kernel; models of net.Buffers/conn.Write; harness. Partial: the whole-packets invariant over all session histories is judged on traces (see coverage.partial); the write-token exclusion is a theorem about the L3 monitor (c08_write_token_exclusive), tied by trace inclusion.",
     "technique": "Coq proof by induction over write-outcome scripts + model/implementation correspondence on exhaustive splits",
 }
 
@@ -147,7 +147,7 @@ hist_prop("C03",
 hist_prop("C05",
     ["c05_resend_order", "c05_accept_position_alo", "c05_accept_position_eo"],
     ["wire order and the DUP flag are judged on histories (c05_ok + hist_agree); the theorem covers identifier assignment and storage order",
-     "concurrent publishers: order = sequence-semaphore order (L3 not built)"],
+     "concurrent publishers: order = sequence-semaphore order; the per-level sequence token is proved exclusive for every accepted trace of the L3 monitor (c05_seq_exclusive) and the real client's traces are tied to the monitor by inclusion; the reduction to atomic L2 steps is an assumption"],
     "C05 generator: as C01.",
     REFINE + "Corollaries: identifiers are assigned in acceptance order and the storage numbers of each group increase with acceptance order, which is what resend (sequence order) and restart (sort by storage number) rely on. "
     "c05_ok judges the trace: first transmissions in acceptance order without DUP, retransmissions with DUP (free after a restart), per-connection order of PUBLISH and PUBREL.",
@@ -288,7 +288,7 @@ L3TXT = ("Concurrency: the synchronisation skeleton (connSem, writeSem, the two 
 
 hist_prop("C10",
     ["c10_error_leaves_connection", "c10_big_error_leaves_connection", "c10_redial", "c10_reset_then_redial", "c10_pending_released", "c10_connect_shape", "c10_own_writes_do_not_wait"],
-    ["interleaving statements (the read routine never waits on a condition only it can establish; bounded wait on the semaphores) are not theorems yet: SyncProofs in progress; the monitor is tied by trace inclusion",
+    ["interleaving statements: proved for the L3 monitor are the acyclic wait-for graph and that the write-token holder waits for no channel (c10_wait_for_acyclic, c10_write_holder_waits_for_nothing); bounded wait on connSem/seqSem through the I/O gates is not a theorem; the real client is tied to the monitor by trace inclusion on sampled schedules",
      "a request blocked in lockWrite spins (no blocking) while the write semaphore is pending and Online is still released, until ReadSlices notices the failure: CPU is burnt but the property's wording holds"],
     "C10 generator: general histories + ReadBackoff measured in virtual time; second runner SYNC (concurrent runs).",
     ALLSTATES + "Every error while reading/handling leaves the connection (close, offline, pending released) and the next ReadSlices redials; a failed attempt releases waiters with ErrDown; the read routine's own writes never wait for a connect. " + L3TXT +
